@@ -384,6 +384,50 @@ def run_scenario_two(spec, fa, fb):
         sc.close()
 
 
+# ------------------------------------------------------------------ E4: answers of two pipelined requests vs the I/O loop's send
+def sched_execute(limit, prefix):
+    """Two requests arrive in one network read and are handled concurrently (threading application); their answers are queued, encoded by
+    the connection's writer and flushed by the I/O thread in every interleaving (bounded) at line granularity in the writer, the
+    queueing path and the send branch of the I/O loop.  Both requests must be answered, then a third one as well."""
+    from .. import scheddfs
+    from . import c15
+    c15._set_points()
+    ch = scheddfs.Chooser(prefix)
+    cfg = cfg_for("threading", limit, "answer")
+    sc = scenario.Scenario(cfg, chooser=ch, max_socks=2, start_plan=["refused"], app_timeout=2)
+    try:
+        nw = sc.start()
+        sc.apply(("accept",))
+        sc.apply(("m", 0, "cer_p0"))
+        s = sc.socks[0]
+        d = sc.message(s, "req") + sc.message(s, "req")
+        nw.world.points_on = True
+        ch.window = True
+        nw.deliver(s.fs, d)
+        ch.window = False
+        nw.world.points_on = False
+        sc.sync()
+        sc.apply(("tick", 1))
+        sc.apply(("m", 0, "req"))
+        sc.apply(("tick", 2))
+        answered = sorted((f.h.hbh, f.result_code) for f in s.out if not f.h.is_request and f.h.code == 271)
+        sent = sorted(f.h.hbh for f in s.inreq if f.h.code == 271)
+        return ((tuple(sent), tuple(answered), s.fs.closed, tuple(nw.thread_failures())), ch)
+    finally:
+        sc.close()
+        sk.set_line_points({})
+
+
+def sched_check(obs):
+    sent, answered, closed, fails = obs
+    vs = []
+    if [h for h, rcode in answered if rcode == 2001] != list(sent) or closed:
+        vs.append(("pipelined-requests-not-all-answered:under-some-schedule", f"requests {[hex(h) for h in sent]}, answers {[(hex(h), r) for h, r in answered]}, connection closed={closed}"))
+    if fails:
+        vs.append(("worker-thread-terminated-abnormally:under-some-schedule", f"{fails}"))
+    return vs
+
+
 def run(tier):
     rep = Report("C14", tier, "fault_enumeration")
     common.pool()
@@ -404,6 +448,18 @@ def run(tier):
             for k, d, c in vs:
                 rep.add(Violation(k, d, c))
             rep.sample({"scenario": name + " (fault pairs)", "kernel_steps": steps, "executions": n}, 40)
+    import functools
+    from .. import scheddfs
+    sb = 2 if tier == "thorough" else 1
+    tasks = [(functools.partial(sched_execute, lim), sched_check, sb) for lim in (2, 0)]
+    for lim, r in zip((2, 0), (scheddfs.explore_many(tasks) if tier != "thorough" else scheddfs.explore_many_capped(tasks, 1, 600))):
+        total += r["executions"]
+        distinct += r["executions"]
+        for (key, detail), choices in r["violations"]:
+            rep.add(Violation(key, f"[two pipelined requests, thread limit {lim}, bound {sb}] schedule {choices}: {detail}", {"sched": lim, "choices": choices}))
+        rep.sample({"schedule_exploration": f"two pipelined requests, thread limit {lim}: handlers, writer and I/O loop at line granularity", "preemption_bound": sb,
+                    "bound_completed_without_cap": r.get("bound_completed", sb), "capped": r.get("capped", False), "executions": r["executions"],
+                    "distinct_outcomes": len(r["outcomes"]), "branching_points": r["max_points"]}, 60)
     rep.cov.update({"evaluations": total, "distinct_nontrivial": distinct, "scenarios": len(specs), "exhaustive": True,
                     "rule": "scenarios {inbound handshake, outbound handshake (immediate / in progress), request-answer with the basic application, odd traffic, "
                             "outbound request, watchdog, disconnect-peer, held answers, two connections, mutual dial, threading application with limit 0..3 x "
@@ -418,6 +474,11 @@ def run(tier):
 
 
 def replay(case):
+    if "sched" in case:
+        import functools
+        from .. import scheddfs
+        obs, ch = scheddfs.replay_choices(functools.partial(sched_execute, case["sched"]), case["choices"])
+        return [Violation(k, d) for k, d in sched_check(obs)]
     for spec in scenarios("thorough"):
         if spec[0] == case.get("scenario"):
             if case.get("fault"):
